@@ -57,6 +57,7 @@ type FS struct {
 	nEff     int
 	nFileFd  int
 	proc     int
+	initCells []*LineCell
 	effT     []effRec
 	reads    []effRec
 	effects  []map[string]interface{}
@@ -118,6 +119,9 @@ func (w *World) fsInit() {
 		ergoPath + ".zzProcAlive":    w.fsProcAlive,
 		ergoPath + ".zzParseErrInfo": w.fsParseErrInfo,
 		ergoPath + ".zzLogShape":     w.fsLogShape,
+		ergoPath + ".zzFirstBadLine": w.fsFirstBadLine,
+		ergoPath + ".zzStoreEffects": w.fsStoreEffects,
+		ergoPath + ".zzHistoryPreserved": w.fsHistoryPreserved,
 		ergoPath + ".zzLockDiscipline": w.fsLockDiscipline,
 		ergoPath + ".zzNoTornWrites": func(ex *Exec, c *callCtx) Value {
 			if w.fs.die != nil {
@@ -608,6 +612,10 @@ func (w *World) mFSInit(ex *Exec, c *callCtx) Value {
 		logF.Cells = append(logF.Cells, cl)
 	}
 	w.logFile = logF
+	for _, cl := range logF.Cells {
+		cp := *cl
+		w.fs.initCells = append(w.fs.initCells, &cp)
+	}
 	lock := w.file(join("lock"))
 	lock.Exists = ex.nondet("fs.lock.exists", "bool").(BoolV).T
 	tmp := w.file(StrV{T: UF("cat", SInt, join("plans.jsonl").T, IntC(Lits.Code(".tmp")))})
@@ -653,4 +661,105 @@ func (w *World) fsLockDiscipline(ex *Exec, c *callCtx) Value {
 		exl = And(exl, Implies(l.G, Eq(BVBin("bvand", l.How, BVC(2, 64)), BVC(2, 64))))
 	}
 	return TupleV{E: []Value{BoolV{wil}, BoolV{ril}, BoolV{nb}, BoolV{exl}}}
+}
+
+// zzFirstBadLine() (bad bool, line int): the specification side of readEvents over the initial
+// log: lines are numbered from 1 as the scanner yields them; a line is bad when it is not blank,
+// not valid JSON, and either is not the last line or the file ends with a newline.
+func (w *World) fsFirstBadLine(ex *Exec, c *callCtx) Value {
+	cells := w.fs.initCells
+	bad := False
+	line := BVC(0, 64)
+	no := BVC(0, 64)
+	endsNL := True
+	for _, cl := range cells {
+		endsNL = And(endsNL, Not(And(cl.Pres, Not(cl.Complete))))
+	}
+	for j, cl := range cells {
+		no = BVBin("bvadd", no, Ite(cl.Pres, BVC(1, 64), BVC(0, 64)))
+		later := False
+		for _, o := range cells[j+1:] {
+			later = Or(later, o.Pres)
+		}
+		isBad := And(cl.Pres, Not(cl.Blank), Not(cl.Parses), Or(later, endsNL))
+		line = Ite(And(Not(bad), isBad), no, line)
+		bad = Or(bad, isBad)
+	}
+	return TupleV{E: []Value{BoolV{bad}, IntV{line, true}}}
+}
+
+func (w *World) fsStoreEffects(ex *Exec, c *callCtx) Value {
+	n := BVC(0, 64)
+	for _, e := range w.fs.effT {
+		if e.f == w.logFile || e.f == w.tmpFile {
+			n = BVBin("bvadd", n, Ite(e.g, BVC(1, 64), BVC(0, 64)))
+		}
+	}
+	return IntV{n, true}
+}
+
+func boxKeyEq(a, b *Box) *Term {
+	keys := map[string]bool{}
+	for k := range a.Keys {
+		keys[k] = true
+	}
+	for k := range b.Keys {
+		keys[k] = true
+	}
+	cs := []*Term{Eq(a.Malformed, b.Malformed)}
+	for k := range keys {
+		x, ok1 := a.Keys[k]
+		y, ok2 := b.Keys[k]
+		if !ok1 {
+			x = IntC(0)
+		}
+		if !ok2 {
+			y = IntC(0)
+		}
+		cs = append(cs, Eq(x, y))
+	}
+	return And(cs...)
+}
+
+func eventEq(a, b Value) *Term {
+	x, y := a.(StructV), b.(StructV)
+	cs := []*Term{}
+	for i := range x.F {
+		switch xv := x.F[i].(type) {
+		case StrV:
+			cs = append(cs, Eq(xv.T, y.F[i].(StrV).T))
+		case RefV:
+			yv := y.F[i].(RefV)
+			var alts []*Term
+			for _, p := range xv.Alts {
+				for _, q := range yv.Alts {
+					pb, ok1 := p.Tgt.(BoxT)
+					qb, ok2 := q.Tgt.(BoxT)
+					if ok1 && ok2 {
+						alts = append(alts, And(p.C, q.C, boxKeyEq(pb.B, qb.B)))
+					}
+				}
+			}
+			cs = append(cs, Or(alts...))
+		}
+	}
+	return And(cs...)
+}
+
+// zzHistoryPreserved(): every line of the initial log is still present in the current log with
+// the same event content (order is checked only through the positions of the rewritten cells).
+func (w *World) fsHistoryPreserved(ex *Exec, c *callCtx) Value {
+	ok := True
+	cur := w.logFile.Cells
+	for j, ic := range w.fs.initCells {
+		var found []*Term
+		for k, cc := range cur {
+			if k < j {
+				continue
+			}
+			found = append(found, And(cc.Pres, cc.Complete, cc.Parses, eventEq(ic.Ev, cc.Ev)))
+		}
+		ok = And(ok, Implies(And(ic.Pres, Not(ic.Blank)), Or(found...)))
+	}
+	return BoolV{ok}
 }
